@@ -213,7 +213,13 @@ func c01run(sc *c01scn, s *vt.Sink) error {
 	}
 	defer bd.Close()
 
-	spec := &bed.PacketSpec{MaxPL: 1200, ArbSeq: sc.Arb}
+	// payloads up to the largest one that fits the default maximum packet size (1472: 12 bytes of
+	// RTP header, 10 of SRTP authentication tag when secure)
+	maxPL := 1460
+	if sc.TLS {
+		maxPL = 1450
+	}
+	spec := &bed.PacketSpec{MaxPL: maxPL, ArbSeq: sc.Arb, Wide: sc.Seed%2 == 0}
 	anyLate := false
 	for _, r := range sc.Readers {
 		anyLate = anyLate || r.Late
@@ -513,7 +519,13 @@ func c01record(sc *c01scn, s *vt.Sink) error {
 		return err
 	}
 	defer bd.Close()
-	spec := &bed.PacketSpec{MaxPL: 1200, ArbSeq: sc.Arb}
+	// payloads up to the largest one that fits the default maximum packet size (1472: 12 bytes of
+	// RTP header, 10 of SRTP authentication tag when secure)
+	maxPL := 1460
+	if sc.TLS {
+		maxPL = 1450
+	}
+	spec := &bed.PacketSpec{MaxPL: maxPL, ArbSeq: sc.Arb, Wide: sc.Seed%2 == 0}
 	for k := 1; k <= nk; k++ {
 		spec.Seq0[k] = uint16(65536 - rng.Intn(60))
 		spec.TS0[k] = uint32(0xFFFFFFFF - uint32(rng.Intn(200000)))
